@@ -23,6 +23,11 @@ func (p *parser) parseLogExpr() (e *LogExpr, err error) {
 }
 
 func (p *parser) parseSelector() (s Selector, err error) {
+	if err := p.enter(); err != nil {
+		return s, err
+	}
+	defer p.leave()
+
 	switch t := p.next(); t.Type {
 	case lexer.OpenParen:
 		s, err = p.parseSelector()
